@@ -159,6 +159,7 @@ type gwCtx struct {
 	fall func() (string, error) // the statement list falls off its end
 	brk  func() (string, error) // nil outside loops
 	cont func() (string, error)
+	ret  func(string) (string, error) // schema side only: `return v` inside a range loop
 }
 
 type gw struct {
@@ -176,6 +177,7 @@ type gw struct {
 	declN    map[string]int
 	borrowed map[string]bool
 	pre      strings.Builder
+	sch      *gsch // nil for the writer; the schema side (gpkgschema.go) hooks its extensions in through this
 }
 
 func (g *gw) fresh(p string) string {
@@ -230,6 +232,11 @@ func (g *gw) goType(x ast.Expr) (string, error) {
 	case "[]string":
 		return gwStrings, nil
 	}
+	if g.sch != nil {
+		if t, ok := g.sch.goType(x); ok {
+			return t, nil
+		}
+	}
 	return "", g.errAt(x, "unsupported type %s", types.ExprString(x))
 }
 
@@ -245,6 +252,9 @@ func gwZero(ty string) (string, bool) {
 		return "0", true
 	case gwBool:
 		return "false", true
+	}
+	if z, ok := gsZero[ty]; ok {
+		return z, true
 	}
 	return "", false
 }
@@ -263,6 +273,11 @@ func (g *gw) conv(n ast.Node, v gwVal, ty string) (string, error) {
 		return "(AStr " + v.code + ")", nil
 	case v.ty == gwBin && ty == gwAny:
 		return "(ABin " + v.code + ")", nil
+	}
+	if g.sch != nil {
+		if c, ok := g.sch.conv(v, ty); ok {
+			return c, nil
+		}
 	}
 	return "", g.errAt(n, "type mismatch: %s used as %s", v.ty, ty)
 }
@@ -350,6 +365,11 @@ func (g *gw) ownership(fd *ast.FuncDecl) {
 // ---------------------------------------------------------------------------
 
 func (g *gw) expr(env *gwEnv, x ast.Expr, binds *[]string) (gwVal, error) {
+	if g.sch != nil {
+		if v, ok, err := g.sch.expr(env, x, binds); ok || err != nil {
+			return v, err
+		}
+	}
 	switch x := x.(type) {
 	case *ast.ParenExpr:
 		return g.expr(env, x.X, binds)
@@ -538,6 +558,11 @@ func (g *gw) expr(env *gwEnv, x ast.Expr, binds *[]string) (gwVal, error) {
 
 // call: the calls that are expressions with ONE result and do not touch the world
 func (g *gw) call(env *gwEnv, x *ast.CallExpr, binds *[]string) (gwVal, error) {
+	if g.sch != nil {
+		if v, ok, err := g.sch.call(env, x, binds); ok || err != nil {
+			return v, err
+		}
+	}
 	if x.Ellipsis.IsValid() {
 		return gwVal{}, g.errAt(x, "unsupported call with ... : %s", g.src(x))
 	}
@@ -685,6 +710,11 @@ type gwOp struct {
 
 // opCall recognises the modelled multi-result / world calls; (nil, nil) when x is not one of them
 func (g *gw) opCall(env *gwEnv, x *ast.CallExpr, binds *[]string) (*gwOp, error) {
+	if g.sch != nil {
+		if op, err := g.sch.opCall(env, x, binds); op != nil || err != nil {
+			return op, err
+		}
+	}
 	sel, ok := x.Fun.(*ast.SelectorExpr)
 	if !ok {
 		return nil, nil
@@ -846,6 +876,9 @@ func (a *gwAssigned) exprs(local []map[string]bool, xs ...ast.Node) {
 		ast.Inspect(x, func(n ast.Node) bool {
 			switch c := n.(type) {
 			case *ast.CallExpr:
+				if a.g.sch != nil && a.g.sch.assignedCall(a, local, c) {
+					return true
+				}
 				if sel, ok := c.Fun.(*ast.SelectorExpr); ok {
 					switch sel.Sel.Name {
 					case "Begin", "Prepare", "Exec", "Close", "Commit", "UpdateGeometryExtent":
@@ -879,6 +912,9 @@ func (a *gwAssigned) stmts(local []map[string]bool, list []ast.Stmt) {
 	local = append(local, map[string]bool{})
 	cur := local[len(local)-1]
 	for _, st := range list {
+		if a.g.sch != nil && a.g.sch.assignedStmt(a, local, st) {
+			continue
+		}
 		switch s := st.(type) {
 		case *ast.AssignStmt:
 			for _, r := range s.Rhs {
@@ -1059,6 +1095,10 @@ func (g *gw) terminates(list []ast.Stmt) bool {
 		}
 	case *ast.BlockStmt:
 		return g.terminates(s.List)
+	case *ast.SwitchStmt, *ast.TypeSwitchStmt:
+		if g.sch != nil {
+			return g.sch.switchTerminates(s)
+		}
 	}
 	return false
 }
@@ -1066,6 +1106,11 @@ func (g *gw) terminates(list []ast.Stmt) bool {
 func (g *gw) block(env *gwEnv, list []ast.Stmt, ctx gwCtx) (string, error) {
 	if len(list) == 0 {
 		return ctx.fall()
+	}
+	if g.sch != nil {
+		if c, ok, err := g.sch.block(env, list, ctx); ok || err != nil {
+			return c, err
+		}
 	}
 	rest := func() (string, error) { return g.block(env, list[1:], ctx) }
 	return g.stmt(env, list[0], len(list) == 1, rest, ctx)
@@ -1111,6 +1156,11 @@ func gwJoin(binds []string, tail string) string {
 }
 
 func (g *gw) stmt(env *gwEnv, st ast.Stmt, last bool, rest func() (string, error), ctx gwCtx) (string, error) {
+	if g.sch != nil {
+		if c, ok, err := g.sch.stmt(env, st, last, rest, ctx); ok || err != nil {
+			return c, err
+		}
+	}
 	switch s := st.(type) {
 	case *ast.EmptyStmt:
 		return rest()
@@ -1455,7 +1505,7 @@ func (g *gw) ifStmt(env *gwEnv, s *ast.IfStmt, last bool, rest func() (string, e
 	} else if !thenFalls && !elseFalls {
 		return "", g.errAt(s, "unreachable statements after this if")
 	}
-	sub := gwCtx{top: ctx.top, fall: after, brk: ctx.brk, cont: ctx.cont}
+	sub := gwCtx{top: ctx.top, fall: after, brk: ctx.brk, cont: ctx.cont, ret: ctx.ret}
 	th, err := g.block(env.child(), s.Body.List, sub)
 	if err != nil {
 		return "", err
